@@ -31,6 +31,10 @@ func ReadStatus(filePtr *os.File,
 ) (fileStatus FileStatusEnum, replayStatus ReplayStateEnum, owningInstanceID int64, err error) {
 	var buffer [10]byte
 	buf, _, err := Read(filePtr, buffer[:])
+	if len(buf) < len(buffer) {
+		// nothing (or not enough) could be read, e.g. at the end of the file
+		return 0, 0, 0, err
+	}
 	return FileStatusEnum(buf[0]), ReplayStateEnum(buf[1]), io.ToInt64(buf[2:]), err
 }
 
